@@ -5,7 +5,7 @@ RECORDIO_H = {'name': 'recordio', 'srcs': ['harness/h_recordio.cc']}
 PROPS = {
     'C01': {
         'subs': ['RecordIO'],
-        'props_modules': ['DmlcModel.Props.C01'],
+        'props_modules': ['DmlcModel.Props.C01', 'DmlcModel.Props.C01Witness'],
         'driver': 'RecordIO',
         'harness': dict(RECORDIO_H, args=['--prop', 'C01']),
         'rule': 'cases = record sequences (exhaustive over a magic-centred word alphabet x tail 0-3 for <=3 words, '
